@@ -429,7 +429,7 @@ fn main() {
             if rng.chance(1, 3) {
                 spec.fdt_start_id = rng.below(1 << 20) as u32;
             }
-            spec.fdt_duration_s = *rng.pick(&[2u64, 5, 10, 11, 30, 31, 3600, 259_200]);
+            spec.fdt_duration_s = *rng.pick(&[1u64, 2, 5, 10, 11, 30, 31, 3600, 259_200]);
             spec.fdt_carousel = CarouselSpec::DelayMs(*rng.pick(&[200u64, 1000, 5000]));
             for (k, ob) in objs.iter_mut().enumerate() {
                 hostile_meta(&mut rng, ob, k);
@@ -531,7 +531,7 @@ fn main() {
             cr
         }));
         // ---- supersession: an instance is replaced before it expires (drain polling, 50 ms)
-        let durs: [u64; 10] = [2, 3, 5, 9, 10, 11, 20, 30, 31, 60];
+        let durs: [u64; 11] = [1, 2, 3, 5, 9, 10, 11, 20, 30, 31, 60];
         gens.push(Gen::new("supersession", durs.len() * 6, move |ctx, i| {
             let dur = durs[i % durs.len()];
             let variant = i / durs.len();
@@ -562,6 +562,13 @@ fn main() {
                         pairs += 1;
                         // instant at which instance a stops being valid: NTP second exp_a (receivers test server_time > Expires)
                         let expiry = SystemTime::UNIX_EPOCH + Duration::from_secs(exp_a - NTP_UNIX_OFFSET);
+                        // precondition "as long as the sender is polled": the renewal margin (a quarter of the lifetime the
+                        // instance has left when it is published, for short durations) must contain a poll. An instance
+                        // published less than five poll periods (250 ms) before its own Expires second - fdt_duration 1 s,
+                        // publication late in the second - is not judged
+                        if expiry.duration_since(a.t_first).unwrap_or_default() < Duration::from_millis(250) {
+                            continue;
+                        }
                         if tb > expiry {
                             let late = tb.duration_since(expiry).unwrap();
                             cr.violations.push(Violation::new("not_superseded_before_expiry", format!(
